@@ -492,7 +492,8 @@ Proof.
       * unfold store_value in H.
         destruct v as [z|]; [|destruct (cl_allow_none cl)]; pinv2;
           rewrite ?pop_frame_reent, ?rollback_frame_reent; exact H2.
-      * pinv2. now rewrite pop_frame_reent.
+      * destruct v as [z|]; [|destruct (cl_allow_none cl)]; pinv2;
+          rewrite ?pop_frame_reent, ?rollback_frame_reent; exact H2.
     + pinv2. now rewrite rollback_frame_reent.
     + pinv2. exact H2.
   - intros st args locs whole rest idx r st' ln H Hs.
